@@ -288,6 +288,9 @@ impl Case for BytesCase {
     fn to_json(&self) -> Value {
         json!({ "bytes": hex(&self.bytes) })
     }
+    fn fingerprint(&self) -> u64 {
+        crate::core::fnv64(&self.bytes)
+    }
 }
 
 impl BytesCase {
